@@ -431,3 +431,6 @@ Proof. reflexivity. Qed.
 
 Lemma num_zero_neg : convert2es6 [c_minus; c_0; c_dot; c_0] = JOk [c_0].
 Proof. reflexivity. Qed.
+
+Lemma wf_digits_15 : wf_digits [1; 5].
+Proof. unfold wf_digits. simpl. repeat split; try lia. repeat constructor; lia. Qed.
